@@ -281,3 +281,376 @@ FIELD_CORPUS: List[Dict[str, Any]] = [
     {'obj': 6, 'sig': [], 'ret': 0, 'ctor': None, 'unknown_base': False, 'gn': False,
      'fields': [['type', None], ['type', 'x'], ['note', None]]},
 ]
+
+
+# ------------------------------------------------------------------------------------------------ documents
+# A document is what the author MEANT, independently of any markup:
+#   doc    := {"obj": "func"|"class"|"module", "sig": [param names], "blocks": [block], "fields": [field]}
+#   block  := ["para", [inline]] | ["ulist", [[block]]] | ["olist", [[block]]] | ["literal", [inline], text]
+#           | ["doctest", text] | ["code", text] | ["section", [word], [block]]
+#   inline := ["w", word] | ["b", [word]] | ["i", [word]] | ["c", text] | ["link", [word], url]
+#   field  := [kind, name|None, [inline], typewords|None]
+# kinds: param, return, raises, ivar, cvar, var, note, see, author, since, keyword, yield, warns
+WORDS = ['alpha', 'beta', 'Gamma', 'delta42', 'naïve', 'über', 'x_y', 'foo.bar', 'end.', 'comma,', '(paren)', 'a<b', 'R&D',
+         '&amp;', '<tag>', 'semi;', 'quo"te', "it's", 'per%cent', 'hash#tag', 'plus+', 'eq=', 'slash/', 'q?', 'ex!', 'tilde~',
+         '100', '3.14', 'CamelCase', 'ALLCAPS', 'mid-dash', 'Ünï', '日本', 'z']
+SAFE_WORDS = ['alpha', 'beta', 'Gamma', 'delta42', 'naïve', 'x_y', 'foo.bar', 'end.', 'comma,', 'CamelCase', 'z', '100', 'über']
+URLS = ['http://example.org/a', 'https://ex.org/p?q=1', 'http://x.y/z_1']
+CODE_LINES = ['x = 1', 'def f(a, b=2):', '    return a < b and "s" or None', 'print("hello <world> & co")', 'class C(Base): pass',
+              '# a comment', 's = """tri', '... ple"""', 'for i in range(3):', '    total += i  # acc', "d = {'k': [1, 2]}", '',
+              'if x > 1 & y:', '    y = x % 2', 'lambda: None', '@decorator', 'assert x, "msg"']
+LITERAL_LINES = ['raw text *not bold*', '  indented  more', 'B{not markup} `x` :role:`y`', '<b>html</b> &lt;', 'tab\there', '',
+                 'x = {1: 2}', '@notafield: z', ':notafield: z', '>>> not a doctest', '- not a list', 'trailing \\', 'ünï日本']
+DOCTEST_OUT = ['42', "'text'", '[1, 2, 3]', '<object at 0x1>', 'x &amp; y', 'été', 'a  b', '{}', 'True']
+
+
+def gen_words(rng: random.Random, n: int, pool: List[str] = WORDS) -> List[str]:
+    return [rng.choice(pool) for _ in range(n)]
+
+
+def gen_inlines(rng: random.Random, rich: bool = True, n: Optional[int] = None) -> List[List[Any]]:
+    out: List[List[Any]] = []
+    for _ in range(n if n is not None else rng.randint(1, 9)):
+        r = rng.random()
+        if not rich or r < 0.7:
+            out.append(['w', rng.choice(WORDS)])
+        elif r < 0.78:
+            out.append(['b', gen_words(rng, rng.randint(1, 3), SAFE_WORDS)])
+        elif r < 0.86:
+            out.append(['i', gen_words(rng, rng.randint(1, 3), SAFE_WORDS)])
+        elif r < 0.94:
+            out.append(['c', rng.choice(['x + 1', 'f(a, b)', 'None', 'a.b.c', 'x < y', 'd["k"]', 'name'])])
+        else:
+            out.append(['link', gen_words(rng, rng.randint(1, 2), SAFE_WORDS), rng.choice(URLS)])
+    if out[0][0] != 'w':
+        out.insert(0, ['w', rng.choice(SAFE_WORDS)])
+    else:
+        out[0] = ['w', rng.choice(SAFE_WORDS)]
+    return out
+
+
+def gen_code(rng: random.Random) -> str:
+    lines = [rng.choice(CODE_LINES) for _ in range(rng.randint(1, 5))]
+    while lines and lines[0] == '':
+        lines.pop(0)
+    while lines and lines[-1] == '':
+        lines.pop()
+    return '\n'.join(lines or ['pass'])
+
+
+def gen_doctest(rng: random.Random) -> str:
+    lines: List[str] = []
+    for _ in range(rng.randint(1, 3)):
+        lines.append('>>> ' + rng.choice([l for l in CODE_LINES if l and not l.startswith((' ', '.', '@', 's = '))]))
+        if rng.random() < 0.3:
+            lines.append('... ' + rng.choice(['    pass', 'x', '    y = 2']))
+        if rng.random() < 0.7:
+            for _ in range(rng.randint(1, 2)):
+                lines.append(rng.choice(DOCTEST_OUT))
+    return '\n'.join(lines)
+
+
+def gen_literal(rng: random.Random) -> str:
+    lines = [rng.choice(LITERAL_LINES) for _ in range(rng.randint(1, 4))]
+    while lines and lines[0].strip() == '':
+        lines.pop(0)
+    while lines and lines[-1].strip() == '':
+        lines.pop()
+    if not lines:
+        lines = ['lit']
+    # the first line carries the indentation reference: keep it flush
+    lines[0] = lines[0].lstrip() or 'lit'
+    return '\n'.join(lines)
+
+
+def gen_block(rng: random.Random, depth: int, allow: List[str]) -> List[Any]:
+    kinds = [k for k in ['para', 'para', 'para', 'ulist', 'olist', 'literal', 'doctest', 'code'] if k in allow]
+    k = rng.choice(kinds)
+    if depth >= 2 and k in ('ulist', 'olist'):
+        k = 'para'
+    if k == 'para':
+        return ['para', gen_inlines(rng)]
+    if k in ('ulist', 'olist'):
+        items = []
+        for _ in range(rng.randint(1, 3)):
+            item = [['para', gen_inlines(rng, n=rng.randint(1, 5))]]
+            if rng.random() < 0.35:
+                item.append(gen_block(rng, depth + 1, [a for a in allow if a in ('para', 'ulist', 'olist')]))
+            items.append(item)
+        return [k, items]
+    if k == 'literal':
+        return ['literal', gen_inlines(rng, rich=False, n=rng.randint(1, 4)), gen_literal(rng)]
+    if k == 'doctest':
+        return ['doctest', gen_doctest(rng)]
+    return ['code', gen_code(rng)]
+
+
+def separate(rng: random.Random, blocks: List[Any]) -> List[Any]:
+    """a list cannot directly follow a literal block (it would be read as part of it): put a paragraph between"""
+    out: List[Any] = []
+    for b in blocks:
+        if out and out[-1][0] in ('literal', 'code') and b[0] in ('ulist', 'olist', 'doctest', 'literal', 'code'):
+            out.append(['para', gen_inlines(rng, n=rng.randint(1, 4))])
+        out.append(b)
+    return out
+
+
+def gen_doc(rng: random.Random, fmt: str) -> Dict[str, Any]:
+    obj = rng.choice(['func', 'func', 'func', 'class', 'module'])
+    allow = ['para', 'ulist', 'olist', 'literal', 'doctest']
+    if fmt != 'epytext':
+        allow.append('code')
+    blocks = [['para', gen_inlines(rng)]]
+    for _ in range(rng.randint(0, 4)):
+        blocks.append(gen_block(rng, 0, allow))
+    if fmt in ('epytext', 'restructuredtext') and rng.random() < 0.3:
+        sec_blocks = [['para', gen_inlines(rng)]]
+        if rng.random() < 0.5:
+            sec_blocks.append(gen_block(rng, 0, allow))
+        blocks.append(['section', ['Topic'] + gen_words(rng, rng.randint(0, 2), SAFE_WORDS), separate(rng, sec_blocks)])
+    blocks = separate(rng, blocks)
+    sig = rng.sample(['a', 'b', 'value', 'né', 'opt'], rng.randint(0, 4)) if obj == 'func' else []
+    fields: List[List[Any]] = []
+    body = lambda: gen_inlines(rng, n=rng.randint(1, 6))
+    tyw = lambda: gen_words(rng, rng.randint(1, 2), ['int', 'str', 'Thing', 'list', 'None', 'bool'])
+    if obj == 'func':
+        for p in sig:
+            if rng.random() < 0.8:
+                fields.append(['param', p, body(), tyw() if rng.random() < 0.5 else None])
+        if rng.random() < 0.6:
+            fields.append(['return', None, body(), tyw() if rng.random() < 0.5 else None])
+        for _ in range(rng.randint(0, 2)):
+            fields.append(['raises', rng.choice(['ValueError', 'KeyError', 'OSError']), body(), None])
+    elif obj == 'class':
+        for v in rng.sample(['count', 'name', 'items'], rng.randint(0, 3)):
+            fields.append([rng.choice(['ivar', 'cvar']), v, body(), tyw() if rng.random() < 0.4 else None])
+    else:
+        for v in rng.sample(['LIMIT', 'default'], rng.randint(0, 2)):
+            fields.append(['var', v, body(), tyw() if rng.random() < 0.4 else None])
+    if fmt in ('epytext', 'restructuredtext'):
+        for _ in range(rng.randint(0, 2)):
+            fields.append([rng.choice(['note', 'see', 'author', 'since', 'note']), None, body(), None])
+        if rng.random() < 0.1:
+            fields.append(['custom', None, body(), None])
+    return {'obj': obj, 'sig': sig, 'blocks': blocks, 'fields': fields}
+
+
+def gen_plaintext(rng: random.Random) -> str:
+    pool = WORDS + LITERAL_LINES + CODE_LINES + ['\n', '\n\n', '  ', '\t', '@param x: y', ':param x: y', 'Args:', '>>> 1', '::',
+                                                '*', '`', '{', '}', '\\n', '&#38;', '\x0b', '\u2028', '\u00a0']
+    return ''.join(rng.choice(pool) + rng.choice([' ', ' ', '\n', '']) for _ in range(rng.randint(1, 14)))
+
+
+# ---- serialisers -------------------------------------------------------------------------------------------------
+def wrap(atoms: List[str], width: int, first: str, rest: str) -> List[str]:
+    lines, cur = [], first
+    empty = True
+    for a in atoms:
+        if not empty and len(cur) + 1 + len(a) > width:
+            lines.append(cur)
+            cur, empty = rest, True
+        cur += ('' if empty else ' ') + a
+        empty = False
+    lines.append(cur)
+    return lines
+
+
+def inline_atoms(inl: List[List[Any]], fmt: str) -> List[str]:
+    out = []
+    for it in inl:
+        k = it[0]
+        if k == 'w':
+            out.append(it[1])
+        elif fmt == 'epytext':
+            if k == 'b':
+                out.append('B{' + ' '.join(it[1]) + '}')
+            elif k == 'i':
+                out.append('I{' + ' '.join(it[1]) + '}')
+            elif k == 'c':
+                out.append('C{' + it[1] + '}')
+            else:
+                out.append('U{' + ' '.join(it[1]) + '<' + it[2] + '>}')
+        else:
+            if k == 'b':
+                out.append('**' + ' '.join(it[1]) + '**')
+            elif k == 'i':
+                out.append('*' + ' '.join(it[1]) + '*')
+            elif k == 'c':
+                out.append('``' + it[1] + '``')
+            else:
+                out.append('`' + ' '.join(it[1]) + ' <' + it[2] + '>`_')
+    return out
+
+
+def ser_blocks(blocks: List[Any], fmt: str, ind: int, width: int) -> List[str]:
+    """lines (without trailing blank line); blocks are separated by one blank line"""
+    out: List[str] = []
+    pad = ' ' * ind
+    for b in blocks:
+        if out:
+            out.append('')
+        k = b[0]
+        if k == 'para':
+            out += wrap(inline_atoms(b[1], fmt), width, pad, pad)
+        elif k in ('ulist', 'olist'):
+            if fmt == 'epytext' and ind == 0:
+                out += ser_blocks([b], fmt, 2, width)       # epytext: top-level lists must be indented
+                continue
+            for n, item in enumerate(b[1]):
+                bullet = '- ' if k == 'ulist' else '%d. ' % (n + 1)
+                if n and fmt != 'epytext':
+                    out.append('')
+                first = item[0]
+                out += wrap(inline_atoms(first[1], fmt), width, pad + bullet, pad + ' ' * len(bullet))
+                for nb in item[1:]:
+                    out.append('')
+                    extra = 2 if (fmt == 'epytext' and nb[0] in ('ulist', 'olist')) else 0
+                    out += ser_blocks([nb], fmt, ind + len(bullet) + extra, width)
+        elif k == 'literal':
+            atoms = inline_atoms(b[1], fmt)
+            atoms[-1] = atoms[-1] + '::'
+            out += wrap(atoms, width, pad, pad)
+            out.append('')
+            out += [(pad + '    ' + l) if l else '' for l in b[2].split('\n')]
+        elif k == 'doctest':
+            out += [pad + l for l in b[1].split('\n')]
+        elif k == 'code':
+            out.append(pad + '.. python::')
+            out.append('')
+            out += [(pad + '    ' + l) if l else '' for l in b[1].split('\n')]
+        elif k == 'section':
+            title = ' '.join(b[1])
+            out.append(pad + title)
+            out.append(pad + '=' * len(title))
+            out.append('')
+            out += ser_blocks(b[2], fmt, ind, width)
+        else:
+            raise ValueError(k)
+    return out
+
+
+EPY_TAG = {'param': 'param', 'return': 'return', 'raises': 'raise', 'ivar': 'ivar', 'cvar': 'cvar', 'var': 'var', 'note': 'note',
+           'see': 'see', 'author': 'author', 'since': 'since', 'custom': 'custom'}
+RST_TAG = {'param': 'param', 'return': 'returns', 'raises': 'raises', 'ivar': 'ivar', 'cvar': 'cvar', 'var': 'var', 'note': 'note',
+           'see': 'see', 'author': 'author', 'since': 'since', 'custom': 'custom'}
+TYPE_TAG = {'param': 'type', 'return': 'rtype', 'ivar': 'type', 'cvar': 'type', 'var': 'type'}
+
+
+def serialise(doc: Dict[str, Any], fmt: str, width: int = 68) -> str:
+    if fmt == 'epytext':
+        lines = ser_blocks(doc['blocks'], fmt, 0, width)
+        if doc['fields']:
+            lines.append('')
+        for kind, name, body, ty in doc['fields']:
+            head = '@' + EPY_TAG[kind] + ((' ' + name) if name else '') + ':'
+            lines += wrap(inline_atoms(body, fmt), width, head + ' ', '    ')
+            if ty:
+                head = '@' + TYPE_TAG[kind] + ((' ' + name) if (name and kind != 'return') else '') + ':'
+                lines += wrap(ty, width, head + ' ', '    ')
+        return '\n'.join(lines)
+    if fmt == 'restructuredtext':
+        lines = ser_blocks(doc['blocks'], fmt, 0, width)
+        if doc['fields']:
+            lines.append('')
+        for kind, name, body, ty in doc['fields']:
+            head = ':' + RST_TAG[kind] + ((' ' + name) if name else '') + ':'
+            lines += wrap(inline_atoms(body, fmt), width, head + ' ', '    ')
+            if ty:
+                head = ':' + TYPE_TAG[kind] + ((' ' + name) if (name and kind != 'return') else '') + ':'
+                lines += wrap(ty, width, head + ' ', '    ')
+        return '\n'.join(lines)
+    if fmt in ('google', 'numpy'):
+        lines = ser_blocks(doc['blocks'], 'restructuredtext', 0, width)
+        groups: Dict[str, List[Any]] = {}
+        for f in doc['fields']:
+            groups.setdefault(f[0], []).append(f)
+        order = [('param', 'Args', 'Parameters'), ('return', 'Returns', 'Returns'), ('raises', 'Raises', 'Raises'),
+                 ('ivar', 'Attributes', 'Attributes'), ('cvar', 'Attributes', 'Attributes'), ('var', 'Attributes', 'Attributes')]
+        done = set()
+        for kind, gname, nname in order:
+            fs = [f for f in doc['fields'] if f[0] == kind] if kind in ('param', 'return', 'raises') else \
+                [f for f in doc['fields'] if f[0] in ('ivar', 'cvar', 'var')]
+            key = gname
+            if not fs or key in done:
+                continue
+            done.add(key)
+            lines.append('')
+            if fmt == 'google':
+                lines.append(gname + ':')
+                for kd, name, body, ty in fs:
+                    atoms = inline_atoms(body, 'restructuredtext')
+                    if kd == 'return':
+                        head = (' '.join(ty) + ': ') if ty else ''
+                    elif kd == 'raises':
+                        head = name + ': '
+                    else:
+                        head = name + ((' (' + ' '.join(ty) + ')') if ty else '') + ': '
+                    lines += wrap(atoms, width, '    ' + head, '        ')
+            else:
+                lines.append(nname)
+                lines.append('-' * len(nname))
+                for kd, name, body, ty in fs:
+                    atoms = inline_atoms(body, 'restructuredtext')
+                    if kd == 'return':
+                        lines.append(' '.join(ty) if ty else 'object')
+                    elif kd == 'raises':
+                        lines.append(name)
+                    else:
+                        lines.append(name + ((' : ' + ' '.join(ty)) if ty else ''))
+                    lines += wrap(atoms, width, '    ', '    ')
+        return '\n'.join(lines)
+    raise ValueError(fmt)
+
+
+def source_for(doc: Dict[str, Any], docstring: str) -> Tuple[str, str]:
+    # as an author writes it: opening quotes, then every line at the indentation of the body
+    docstring = '\n' + '\n'.join(('    ' + l) if l else '' for l in docstring.split('\n')) + '\n    '
+    lit = repr(docstring)
+    if doc['obj'] == 'func':
+        return 'def f(%s):\n    %s\n' % (', '.join(doc['sig']), lit), 'm.f'
+    if doc['obj'] == 'class':
+        return 'class C:\n    %s\n' % lit, 'm.C'
+    return '%s\nx = 1\n' % lit, 'm'
+
+
+# ---- what must be visible ------------------------------------------------------------------------------------------
+def inline_tokens(inl: List[List[Any]]) -> List[str]:
+    out: List[str] = []
+    for it in inl:
+        if it[0] == 'w':
+            out.append(it[1])
+        elif it[0] == 'c':
+            out += it[1].split()
+        else:
+            out += it[1]
+    return out
+
+
+def expected(blocks: List[Any]) -> Tuple[List[str], List[Tuple[str, str]]]:
+    """(word tokens of the description in order, verbatim blocks (kind, text) in order)"""
+    toks: List[str] = []
+    pres: List[Tuple[str, str]] = []
+    for b in blocks:
+        k = b[0]
+        if k == 'para':
+            toks += inline_tokens(b[1])
+        elif k in ('ulist', 'olist'):
+            for item in b[1]:
+                t, p = expected(item)
+                toks += t
+                pres += p
+        elif k == 'literal':
+            t = inline_tokens(b[1])
+            t[-1] = t[-1] + ':'
+            toks += t
+            pres.append(('literal', b[2]))
+        elif k == 'doctest':
+            pres.append(('doctest', b[1]))
+        elif k == 'code':
+            pres.append(('code', b[1]))
+        elif k == 'section':
+            toks += b[1]
+            t, p = expected(b[2])
+            toks += t
+            pres += p
+    return toks, pres
